@@ -547,7 +547,7 @@ class EffectClient(Client):
         return self._effects_of_expr(e, s)
 
     def handler_bind(self, h, s, exc):
-        return [s.with_(exc_path=True)]
+        return [s.with_(exc_path=True, conds=s.conds + ('exc:%s' % exc,))]
 
     def stmt(self, st, s: EState):
         if isinstance(st, ast.Expr):
